@@ -2,6 +2,8 @@
 From Coq Require Import List Arith Bool ZArith Lia.
 From Pike Require Import Model.Sys Proofs.ListAux Proofs.SysInv Proofs.SysStep Proofs.SysTheorems Corr.SysCorr.
 From Pike Require Proofs.Lockset Proofs.Atomic.
+From Coq Require Import NArith.
+From Pike Require Model.Dispatcher Model.Multi Proofs.DispatcherProofs Proofs.MultiProofs.
 Import ListNotations.
 
 (** Progress: in every reachable state in which some request is unfinished,
@@ -81,3 +83,22 @@ Theorem C02_one_section_sound : forall m l t r,
   Atomic.one_section m l = true -> Atomic.path_list l t r -> Atomic.count (Atomic.is_acq m) t <= 1 /\ Atomic.count (Atomic.is_rel m) t = 0.
 Proof. exact Atomic.one_section_sound. Qed.
 Print Assumptions C02_one_section_sound.
+
+(** ** the cache as a whole (Model/Multi.v): in every reachable state of the
+    composed multi-key cache, while any request of any key is unfinished some
+    request can take a step -- no schedule over all keys, with evictions caused
+    by other keys' lookups, strands a request.  (Per key, every thread step
+    decreases the well-founded measure above; the composition runs the same
+    per-key steps.) *)
+Theorem C02_progress_every_key :
+  forall (K : Type) (keqb : K -> K -> bool), (forall a b, keqb a b = true <-> a = b) ->
+  forall (hash : K -> N) z lim t0 h st0 ls m, 0 < z -> (0 <= t0)%Z ->
+    Pike.Model.Multi.mrun keqb hash (Pike.Model.Multi.minit (Pike.Model.Dispatcher.mk_disp z lim) t0 h st0) ls = Some m ->
+    (exists k j p, nth_error (ts (Pike.Model.Multi.sys_of keqb m k)) j = Some p /\ finished p = false) ->
+    exists k i c m', Pike.Model.Multi.mstep keqb hash m (Pike.Model.Multi.MRun k i c) = Some m'.
+Proof.
+  intros K keqb Hk hash z lim t0 h st0 ls m Hz Ht H Hex.
+  exact (Pike.Proofs.MultiProofs.composed_progress keqb Hk hash m
+           (Pike.Proofs.MultiProofs.minv_reachable keqb Hk hash z lim t0 h st0 ls m Hz Ht H) Hex).
+Qed.
+Print Assumptions C02_progress_every_key.
